@@ -305,6 +305,32 @@ def client_checks(ctx):
         if real_shape != exp_shape:
             ctx.fail("param_defs is not the flattening of the schema tree", {"schema": schema},
                      real_shape, exp_shape)
+        # unwrapping disabled: the interface is ONE parameter (the element); surplus positionals, unknown keywords and
+        # two values for it are rejected all the same, and accepted with extra-argument checking off
+        mraw = c_raw.service.f.method
+        pname = mraw.binding.input.param_defs(mraw)[0][0]
+        c_raw_lax = wsdlkit.client(w, nosend=True, unwrap=False, extraArgumentErrors=False)
+        whole = {nme: "w" for nme in names[:1]}
+        for label, a, k in (("surplus positional", (whole, "surplus"), {}), ("unknown keyword", (whole,), {"zzz": 1}),
+                            ("two values for the parameter", (whole,), {pname: whole})):
+            inp = {"schema": schema, "unwrap": False, "bad_call": label}
+            ctx.case(common.digest(inp), True)
+            try:
+                c_raw.service.f(*a, **k)
+                ctx.fail("with unwrapping disabled a bad call is not rejected", inp, "accepted", "TypeError")
+            except TypeError:
+                pass
+            except Exception as e:
+                ctx.fail("with unwrapping disabled a bad call fails oddly", inp, repr(e), "TypeError")
+            try:
+                c_raw_lax.service.f(*a, **k)
+            except TypeError as e:
+                ctx.fail("call rejected although extraArgumentErrors is off", inp, str(e), "accepted")
+            except Exception:
+                pass
+        # the option is read at every call: a client switched after it was built (and used) behaves like one built so
+        c_tog = wsdlkit.client(w, nosend=True)
+        toggled = 0
         reqs, metas = [], []
         for args, kw in vectors(names, rng, ctx.pick(30, 200)):
             args = [None if a is None else rng.choice(["v%d" % i, "v%d" % i, "", 0]) for i, a in enumerate(args)]
@@ -344,6 +370,20 @@ def client_checks(ctx):
                     c_lax.service.f(*args, **dict(kw))
                 except TypeError as e:
                     ctx.fail("call rejected although extraArgumentErrors is off", inp, str(e), "accepted")
+                if toggled < 6:
+                    toggled += 1
+                    outcomes = []
+                    for setting in (True, False, True):
+                        c_tog.set_options(extraArgumentErrors=setting)
+                        try:
+                            c_tog.service.f(*args, **dict(kw))
+                            outcomes.append("accepted")
+                        except TypeError as e:
+                            outcomes.append("rejected" if str(e) == real[1] else "rejected: " + str(e))
+                    if outcomes != ["rejected", "accepted", "rejected"]:
+                        ctx.fail("switching extraArgumentErrors on a client already built does not decide whether the "
+                                 "call is rejected", dict(inp, settings=[True, False, True]), outcomes,
+                                 ["rejected", "accepted", "rejected"])
                 ctx.dist["client:rejected"] += 1
                 continue
             ctx.dist["client:accepted"] += 1
